@@ -191,6 +191,12 @@ func Matrix() Set {
 		{Name: "tagm", Num: 7, Kind: Int64, Map: true, KeyKind: Int32},
 		{Name: "name", Num: 8, Kind: String},
 	}})
+	// Rm: recursion through a map value (map-entry subfields that overrun their entry re-read the same bytes at every level)
+	msgs = append(msgs, M{Name: "Rm", Fields: []F{
+		{Name: "m", Num: 1, Kind: Message, TypeName: ".vm.Rm", Map: true, KeyKind: Int32},
+		{Name: "s", Num: 2, Kind: Bytes, Map: true, KeyKind: String},
+		{Name: "x", Num: 3, Kind: Int32},
+	}})
 	msgs = append(msgs, M{Name: "Rd", Fields: []F{
 		{Name: "rc", Num: 1, Kind: Message, TypeName: ".vm.Rc"},
 		{Name: "vals", Num: 2, Kind: Sint64, Rep: true},
